@@ -11,9 +11,11 @@ def selPoint (name : String) (s : SelectFact) : BlockPoint :=
          (if s.cases.contains "recv c.quit" then [Signal.queueQuit] else []) ++
          (if s.hasTimer then [Signal.timer] else [])⟩
 
-/-- a wait inside Close itself: ended by the context that carries the FIN timeout -/
+/-- a wait inside Close itself: ended by the context that carries the FIN timeout (the translator
+    prints a local defined by `context.WithTimeout` / `WithDeadline` as `timeoutCtx`, whatever it
+    is called in the source) -/
 def closePoint (name : String) (s : SelectFact) : BlockPoint :=
-  ⟨name, if s.cases.contains "recv ctxc.Done()" then [Signal.timer] else []⟩
+  ⟨name, if s.cases.contains "recv timeoutCtx.Done()" then [Signal.timer] else []⟩
 
 def ctxPoint (name arg : String) : BlockPoint :=
   ⟨name, if arg = "g.ctx" then [Signal.ctxCancel] else []⟩
@@ -91,7 +93,7 @@ theorem loops_leave_cancel_to_close :
     goroutine of its own (repair 818c5cb: the send function handed to the
     connection need not return when its context expires) -/
 theorem fin_wait_bounded :
-    (restingSelects sel_Close).all (fun s => s.cases.contains "recv ctxc.Done()" && s.cases.contains "recv finDone") = true ∧
+    (restingSelects sel_Close).all (fun s => s.cases.contains "recv timeoutCtx.Done()" && s.cases.length == 2) = true ∧
     (restingSelects sel_Close).length = 1 ∧ go_Close.length = 1 ∧
     (calls_Close.idxOf "context.WithTimeout") < (calls_Close.idxOf "g.sendPacket") := by decide
 
